@@ -270,7 +270,7 @@ def check_main(pid, tier, budget=None, workers=None, seed=None):
     work = os.path.join(VERIF, ".work", f"{pid}-{os.getpid()}")
     os.makedirs(work, exist_ok=True)
     env = dict(os.environ, PYTHONHASHSEED="0", OMP_WAIT_POLICY="passive",
-               PYTHONPATH=VERIF, NUMBA_NUM_THREADS=os.environ.get("NUMBA_NUM_THREADS", "4"),
+               PYTHONPATH=_pythonpath(), NUMBA_NUM_THREADS=os.environ.get("NUMBA_NUM_THREADS", "4"),
                PYTHONDONTWRITEBYTECODE="1")
     env.update(getattr(mod, "ENV", {}))
     procs = []
@@ -350,6 +350,11 @@ def check_main(pid, tier, budget=None, workers=None, seed=None):
         return 2
     print(f"[{pid}] OK: property held on everything explored")
     return 0
+
+
+def _pythonpath():
+    r = os.environ.get("VERIF_REPO")
+    return (os.path.realpath(r) + os.pathsep + VERIF) if r else VERIF
 
 
 def _fresh_replay(pid, path, env):
